@@ -36,6 +36,7 @@ func runNamingHistory(ops [][2]int, names []string, tags []string, w *hx.Writer)
 	var toks []string
 	firstObj := map[string]int{}
 	var fails []string
+	fwdPanic := false
 	for _, op := range ops {
 		name := names[op[0]]
 		key := op[1]*100 + op[0] // an object identity always carries one name
@@ -46,6 +47,9 @@ func runNamingHistory(ops [][2]int, names []string, tags []string, w *hx.Writer)
 		}
 		toks = append(toks, fmt.Sprintf("%s:%d", hx.Hex(name), key))
 		pan := hx.Guard(func() { reg.RegisterSingleton(o) })
+		if pan != nil {
+			fwdPanic = true
+		}
 		if _, seen := firstObj[name]; !seen {
 			firstObj[name] = key
 			if pan != nil {
@@ -76,6 +80,38 @@ func runNamingHistory(ops [][2]int, names []string, tags []string, w *hx.Writer)
 	o := "-"
 	if len(obs) > 0 {
 		o = strings.Join(obs, ",")
+	}
+	// C10: when no registration is refused, what ends up registered must not depend on the registration order
+	// (the same attempts in reverse on a fresh registry)
+	anyPanic := false
+	{
+		reg2 := support.NewRegistry()
+		for i := len(ops) - 1; i >= 0; i-- {
+			key := ops[i][1]*100 + ops[i][0]
+			if hx.Guard(func() { reg2.RegisterSingleton(objs[key]) }) != nil {
+				anyPanic = true
+			}
+		}
+		if !anyPanic && !fwdPanic {
+			var obs2 []string
+			ns2 := reg2.GetSingletonNames()
+			sort.Strings(ns2)
+			for _, n := range ns2 {
+				c, err := reg2.GetSingleton(n)
+				id := -1
+				if err == nil {
+					for k, ob := range objs {
+						if any(ob) == c {
+							id = k
+						}
+					}
+				}
+				obs2 = append(obs2, fmt.Sprintf("%s=%d", hx.Hex(n), id))
+			}
+			if strings.Join(obs2, ",") != strings.Join(obs, ",") {
+				fails = append(fails, fmt.Sprintf("FAIL c10-registration-order the same registrations in reverse order leave %v registered instead of %v, and none was refused", obs2, obs))
+			}
+		}
 	}
 	w.Put(hx.Case{Scn: "H " + strings.Join(toks, " "), Obs: o, Oracle: joinFails(fails), Tags: tags})
 }
